@@ -1,6 +1,6 @@
 import CoxeterVerif.Lemmas.DistToSurfaceUnique
 import CoxeterVerif.Lemmas.DistToSurfaceCheck
-import CoxeterVerif.Lemmas.DistToSurfaceSpheroList
+import CoxeterVerif.Lemmas.DistToSurfaceSpheroExact
 /-!
   # C14 — distance_to_surface is the radial distance from the centre to the boundary
 
@@ -30,14 +30,15 @@ import CoxeterVerif.Lemmas.DistToSurfaceSpheroList
     discriminant ≥ 0, root positive, point at distance exactly `r` from the core vertex),
     `spg_arc_on_circle`, `spg_arc_root_largest`; the repaired discriminant (/repo 5df35a1):
     `spg_arc_disc_identity`, `spg_arc_root_closed_form`, `spg_arc_root_eq_textbook`, `spg_arc_r0`.
-  `_partial`
-  * `spg_dts_arc_or_offset_partial`: the whole spheropolygon function is assigned, positive, and the point
-    is at distance exactly `r` from a core vertex or at signed distance exactly `r` from the supporting
-    line of a core edge (on an edge of the offset polygon) — under the hypothesis that the offset polygon
-    is strictly convex counter-clockwise around the centre (checked per run; the code's own
-    `ConvexPolygon(new_verts)` verifies it).  NOT proved: that hypothesis from the convexity of the core,
-    and that the feature the code picks is the NEAREST one (so that the distance to the core polygon as a
-    set is `r`); both need the cyclic order of the edge normals (see notes/C14.md).
+  `_partial` (one hypothesis left)
+  * `spg_dts_correct_partial` (round 3): the whole spheropolygon function, every strictly convex core with
+    ≥ 3 vertices, `r > 0`, every real `θ`: assigned, positive, and the point is at distance EXACTLY `r` from
+    the core POLYGON (`Spec.atDistExactly`) — arc branch via the normal cone of the vertex, straight branch
+    via the tiling of the directions by arc ranges and straight parts (`Lemmas/DistToSurfaceSpheroExact.lean`).
+    `spg_dts_arc_or_offset_partial` is the weaker round-2 form (vertex circle / offset line).
+    Remaining hypothesis `HP`: the offset polygon is strictly convex counter-clockwise around the centre
+    (kernel call); checked exactly per run (`c14.hyp`, sound checker); its derivation from the core's
+    convexity (edge normals in cyclic order) is not done — see notes/C14.md.
 -/
 open Scalar
 set_option maxRecDepth 4000
@@ -1166,5 +1167,104 @@ example : DTS.arcDist (⟨3, 0⟩ : P2 ℝ) 1 (Real.pi / 2) = 0 := by
   rw [spg_arc_root_closed_form]
   simp only [Real.cos_pi_div_two, Real.sin_pi_div_two]
   norm_num
+
+
+/-- **C14 spheropolygon, at the strength of the property (`_partial`: one hypothesis left).**
+Core polygon `V` strictly convex counter-clockwise with at least three vertices, `c` strictly inside
+(the core centroid: `cpoly_centroid_strictlyInside`), `r > 0`, EVERY real `θ`: the slot is assigned,
+`d > 0`, and `c + d (cos θ, sin θ)` is at distance EXACTLY `r` from the core POLYGON
+(`Spec.atDistExactly`: a boundary point of the core is at distance `r`, and no point of the closed
+convex core is closer) — i.e. it lies on the boundary of core ⊕ disc(r).
+* arc loop took the value: the point is `v + e`, `|e| = r`, with `e` in the normal cone of the core
+  vertex `v` (`DTS.arc_point_in_cone`, no hypothesis beyond the convex corner);
+* no arc range contains `θ`: the offset-polygon hit has its foot ON the core edge, because a hit
+  beyond the end of the straight part would be seen inside the neighbouring corner's arc range
+  (`DTS.straight_foot`) — the arc ranges and straight parts tile the directions.
+The only hypothesis that is not derived from the core's convexity is `HP` (the offset polygon
+`new_verts` is strictly convex counter-clockwise around the centre), needed for the kernel call; it
+is what `ConvexPolygon(new_verts)` verifies in the code and is decided exactly per case by `c14.hyp`
+(sound: `DTS.strictConvexCCWb_sound`). -/
+theorem spg_dts_correct_partial (V : List (P2 ℝ)) (c : P2 ℝ) (r θ : ℝ) (hr : 0 < r)
+    (h3 : 3 ≤ V.length) (hconv : Spec.strictConvexCCW V) (hin : Spec.strictlyInsideCCW V c)
+    (HP : Spec.strictConvexCCW (DTS.spgNewVerts false V c r) ∧
+      Spec.strictlyInsideCCW (DTS.spgNewVerts false V c r) P2.zero)
+    (hcos : ∀ e ∈ Spec.edgesOf (DTS.spgNewVerts false V c r), e.1.x ≠ e.2.x → e.1.y ≠ e.2.y → Real.cos θ ≠ 0) :
+    ∃ d, DTS.spgDts M2.id false false V c r θ = some d ∧ 0 < d ∧
+      Spec.atDistExactly V r (c + Spec.rayPoint d θ) := by
+  have hray : ∀ d : ℝ, c + Spec.rayPoint d θ = ⟨c.x + d * Real.cos θ, c.y + d * Real.sin θ⟩ := by
+    intro d; rfl
+  rcases DTS.spg_cases_exact M2.id false V c r θ hr h3 hconv hin with ⟨hk, hno⟩ | ⟨d, hd, hpos, hex⟩
+  · obtain ⟨d, hd, hpos, hb⟩ := spg_dts_arc_or_offset_partial V c r θ hr h3 hconv hin HP hcos
+    refine ⟨d, hd, hpos, ?_⟩
+    obtain ⟨ha0, ha2⟩ := DTS.fmod_range θ
+    have hca : Real.cos (DTS.fmod θ DTS.twoPi) = Real.cos θ := DTS.cos_fmod θ
+    have hsa : Real.sin (DTS.fmod θ DTS.twoPi) = Real.sin θ := DTS.sin_fmod θ
+    -- the value is the kernel's: the point is on the offset polygon
+    have hne : DTS.spgNewVerts false V c r ≠ [] := by
+      intro h
+      have hl : (DTS.spgNewVerts false V c r).length = V.length := by
+        simp [DTS.spgNewVerts, DTS.spgVerts, DTS.length_corners]
+      rw [h] at hl; simp at hl; omega
+    obtain ⟨d', hd', hpos', hb'⟩ := cpoly_dts_correct (DTS.spgNewVerts false V c r) P2.zero
+      (DTS.fmod θ DTS.twoPi) hne HP.1 HP.2 (by rw [hca]; exact hcos)
+    have hdd : d = d' := by
+      rw [hk, hd'] at hd; exact (Option.some.inj hd).symm
+    subst hdd
+    have hX : Spec.onPolyBoundary (DTS.spgNewVerts false V c r)
+        ⟨d * Real.cos (DTS.fmod θ DTS.twoPi), d * Real.sin (DTS.fmod θ DTS.twoPi)⟩ := by
+      have : (P2.zero : P2 ℝ) + Spec.rayPoint d (DTS.fmod θ DTS.twoPi) =
+          ⟨d * Real.cos (DTS.fmod θ DTS.twoPi), d * Real.sin (DTS.fmod θ DTS.twoPi)⟩ := by
+        show (⟨Scalar.lit 0 + d * Real.cos _, Scalar.lit 0 + d * Real.sin _⟩ : P2 ℝ) = _
+        simp [Scalar.lit]
+      rw [this] at hb'; exact hb'
+    have := DTS.straight_exact V c r hr h3 hconv hin _ d ha0 ha2 hpos hno hX
+    rw [hca, hsa] at this
+    rw [hray]; exact this
+  · exact ⟨d, hd, hpos, by rw [hray]; exact hex⟩
+
+/-- the square `[−1,1]²` rounded by `r = 1/2`: every hypothesis holds, for EVERY `θ` -/
+example (θ : ℝ) : ∃ d, DTS.spgDts M2.id false false [⟨1, -1⟩, ⟨1, 1⟩, ⟨-1, 1⟩, ⟨-1, -1⟩] (⟨0, 0⟩ : P2 ℝ) (1 / 2) θ = some d ∧
+    0 < d ∧ Spec.atDistExactly [⟨1, -1⟩, ⟨1, 1⟩, ⟨-1, 1⟩, (⟨-1, -1⟩ : P2 ℝ)] (1 / 2)
+      ((⟨0, 0⟩ : P2 ℝ) + Spec.rayPoint d θ) := by
+  apply spg_dts_correct_partial
+  · norm_num
+  · simp
+  · refine ⟨by simp; norm_num, ?_⟩
+    intro e he w hw h1 h2
+    simp only [Spec.edgesOf, List.drop_succ_cons, List.drop_zero, List.take_succ_cons, List.take_zero,
+      List.cons_append, List.nil_append, List.zip_cons_cons, List.zip_nil_right, List.mem_cons,
+      List.not_mem_nil, or_false] at he hw
+    rcases he with rfl | rfl | rfl | rfl <;> rcases hw with rfl | rfl | rfl | rfl <;>
+      first
+        | exact absurd rfl h1
+        | exact absurd rfl h2
+        | (simp [Spec.cross, Scalar.lit]; try norm_num)
+  · intro e he
+    simp only [Spec.edgesOf, List.drop_succ_cons, List.drop_zero, List.take_succ_cons, List.take_zero,
+      List.cons_append, List.nil_append, List.zip_cons_cons, List.zip_nil_right, List.mem_cons,
+      List.not_mem_nil, or_false] at he
+    rcases he with rfl | rfl | rfl | rfl <;> (simp [Spec.cross, Scalar.lit])
+  · rw [square_newVerts]
+    refine ⟨⟨by simp; norm_num, ?_⟩, ?_⟩
+    · intro e he w hw h1 h2
+      simp only [Spec.edgesOf, List.drop_succ_cons, List.drop_zero, List.take_succ_cons, List.take_zero,
+        List.cons_append, List.nil_append, List.zip_cons_cons, List.zip_nil_right, List.mem_cons,
+        List.not_mem_nil, or_false] at he hw
+      rcases he with rfl | rfl | rfl | rfl <;> rcases hw with rfl | rfl | rfl | rfl <;>
+        first
+          | exact absurd rfl h1
+          | exact absurd rfl h2
+          | (simp [Spec.cross, Scalar.lit]; try norm_num)
+    · intro e he
+      simp only [Spec.edgesOf, List.drop_succ_cons, List.drop_zero, List.take_succ_cons, List.take_zero,
+        List.cons_append, List.nil_append, List.zip_cons_cons, List.zip_nil_right, List.mem_cons,
+        List.not_mem_nil, or_false] at he
+      rcases he with rfl | rfl | rfl | rfl <;> (simp [Spec.cross, Scalar.lit, P2.zero]; try norm_num)
+  · rw [square_newVerts]
+    intro e he
+    simp only [Spec.edgesOf, List.drop_succ_cons, List.drop_zero, List.take_succ_cons, List.take_zero,
+      List.cons_append, List.nil_append, List.zip_cons_cons, List.zip_nil_right, List.mem_cons,
+      List.not_mem_nil, or_false] at he
+    rcases he with rfl | rfl | rfl | rfl <;> simp
 
 end
